@@ -14,6 +14,7 @@ property values>).  Oracle (independent of the model): an RFC 8785
 implementation written in harness/props/c16.py + Python's uuid5 over the
 contributing properties of the standard."""
 import copy
+import math
 import datetime as dt
 import os
 import uuid
@@ -332,6 +333,26 @@ def F(x):
     return {"f": float(x).hex()}
 
 
+def gen_float(rng):
+    """doubles biased to where number formatting changes form: around 1e-7..1e-4 and 1e15..1e22 (the switches of
+    repr and of ECMAScript notation), integers in float form, short decimals, and anything by bit pattern"""
+    r = rng.random()
+    if r < 0.35:
+        e = rng.choice([-8, -7, -6, -5, -4, -3, 15, 16, 17, 20, 21, 22])
+        m = rng.choice([1.0, 1.5, 2.5, 9.99, 1.2345678, 9.999999999999999])
+        x = float("%re%d" % (m, e))
+    elif r < 0.5:
+        lo, hi = rng.choice([(1e-8, 1e-4), (1e14, 1e23)])
+        x = math.exp(rng.uniform(math.log(lo), math.log(hi)))
+    elif r < 0.65:
+        x = float(rng.randrange(0, 10 ** rng.randrange(1, 17)))
+    elif r < 0.85:
+        x = rng.randrange(1, 10 ** rng.randrange(1, 8)) / 10 ** rng.randrange(0, 12)
+    else:
+        x = c16.bits_to_float((rng.randrange(1, 2046) << 52) | rng.getrandbits(52))
+    return -x if rng.random() < 0.2 else x
+
+
 def gen_common_noncontrib(rng):
     out = []
     if maybe(rng, 0.3):
@@ -375,7 +396,7 @@ def file_ext(rng):
         if maybe(rng):
             e.append(("bits_per_pixel", I(rng.choice([1, 8, 24, 32]))))
         tags = [("Make", gen_text(rng)), ("XResolution", I(rng.randrange(1, 10 ** 7))), ("Model", gen_text(rng)),
-                ("Exposure", F(rng.choice([0.5, 1.25, 1e-5, 333.125, 1e21, 2.5e-7])))]
+                ("Exposure", F(gen_float(rng)))]
         rng.shuffle(tags)
         e.append(("exif_tags", O(tags[:rng.choice([1, 2, 3, 4])])))
         exts.append(("raster-image-ext", O(e)))
@@ -386,7 +407,7 @@ def file_ext(rng):
             if maybe(rng):
                 s.append(("size", I(rng.randrange(0, 10 ** 6))))
             if maybe(rng, 0.7):
-                s.append(("entropy", F(rng.choice([0.0, 7.99, 3.5, 0.061089, 1e-7, 6.25, 4.0, 123456789.125]))))
+                s.append(("entropy", F(rng.choice([0.0, 7.99, gen_float(rng), gen_float(rng)]))))
             if maybe(rng):
                 s.append(("hashes", gen_hashes(rng)))
             secs.append(O(s))
@@ -715,13 +736,13 @@ def gen_custom_value(rng, kind):
     if kind == "int":
         return I(rng.choice([0, -1, 7, 2 ** 31, 2 ** 53, -(2 ** 53), rng.randrange(-10 ** 9, 10 ** 9)]))
     if kind == "float":
-        return F(rng.choice([0.0, -0.0, 1.5, 1e21, 1e-7, 123456789.125, 5e-324, 1.7976931348623157e308, 0.1, 1e20, -2.5]))
+        return F(rng.choice([0.0, -0.0, 5e-324, 1.7976931348623157e308, gen_float(rng), gen_float(rng), gen_float(rng)]))
     if kind == "bool":
         return maybe(rng)
     if kind == "time":
         return gen_ts(rng)
     if kind == "dict":
-        items = [("k_%s" % hexs(rng, 2), rng.choice([gen_text(rng), I(rng.randrange(100)), maybe(rng), F(2.5),
+        items = [("k_%s" % hexs(rng, 2), rng.choice([gen_text(rng), I(rng.randrange(100)), maybe(rng), F(gen_float(rng)),
                                                      A([gen_text(rng), I(3)]), O([("in", gen_text(rng)), ("z", I(1))])]))
                  for _ in range(rng.choice([1, 2, 3]))]
         return O(list(dict(items).items()))
